@@ -337,11 +337,18 @@ def outcome(fn):
 
 
 def observe(node, how, via, revoked=(), rng=None, lform="ok"):
-    play = build(node, how)
-    if abstract(play) != node:
-        raise RuntimeError("R4: built object does not project back to the abstract play")
     ev = {"ev": "obs", "via": via, "build": how, "revoked": list(revoked), "digest": "",
           "lparse": True, "lvalid": True, "ldoc": None}
+    try:
+        play = build(node, how)
+    except Exception as ex:      # noqa
+        if how != "yaml":
+            raise
+        # load_playbook_yaml is code under test: a play that does not load (back) is an observation
+        ev["out"] = "crash:LoadedPlayDiffers"
+        return ev
+    if abstract(play) != node:
+        raise RuntimeError("R4: built object does not project back to the abstract play")
     FakeGPG.seen = []
     FakeGPG.answers = []
     if via == "exclude":
@@ -351,11 +358,22 @@ def observe(node, how, via, revoked=(), rng=None, lform="ok"):
     elif via == "verify_play":
         out, res = outcome(lambda: pv.verify_play(play))
         if out == "ok":
-            if len(FakeGPG.seen) != 1:
-                raise RuntimeError("verify_play succeeded without exactly one GPG check")
-            ev["digest"] = hexd(FakeGPG.seen[0])
-            if not res[0] or bytes(res[1]) != FakeGPG.seen[0]:
-                out = "crash:ReturnedHashDiffers"
+            # the digest that was checked against the signature: what reached the (stubbed) GPG; when the
+            # verifier did not consult it, the digest it reports to have checked.  Whether that is acceptable
+            # is for the specification to say (an observation, never a failure of the machinery).
+            try:
+                reported = bytes(res[1])
+                accepted = bool(res[0])
+            except Exception:
+                reported, accepted = None, False
+            if len(FakeGPG.seen) == 1:
+                ev["digest"] = hexd(FakeGPG.seen[0])
+                if not accepted or reported != FakeGPG.seen[0]:
+                    out = "crash:ReturnedHashDiffers"
+            elif len(FakeGPG.seen) == 0 and accepted and reported is not None:
+                ev["digest"] = hexd(reported)
+            else:
+                out = "crash:UnexpectedSignatureChecks"
     else:
         ev["ldoc"], _Pkgutil.revocation = revocation_doc(revoked, rng, lform)
         ev["lparse"] = ev["ldoc"] is not None
@@ -365,7 +383,8 @@ def observe(node, how, via, revoked=(), rng=None, lform="ok"):
         if len(FakeGPG.seen) == 2:      # [revocation list itself, the play]
             ev["digest"] = hexd(FakeGPG.seen[1])
         elif len(FakeGPG.seen) > 2:
-            raise RuntimeError("more GPG checks than expected")
+            out = "crash:UnexpectedSignatureChecks"
+        # fewer checks: no digest can be attributed to the play (digest stays ""); judged by the specification
         if out == "ok" and res is not play:
             out = "crash:ReturnedOtherPlay"
     ev["out"] = out
